@@ -847,7 +847,7 @@ def execute(desc, ctx):
     used = {}
     any_rot = False
     prev = None
-    prev_inst = prev_table = None
+    prev_inst = prev_table = prev_ti = None
     for n, op_ in enumerate(desc['ops']):
         if op_.get('same_as_prev') and prev is not None:
             op_ = dict(op_, tpl=prev['tpl'], name=prev['name'], style=prev['style'], fixval=prev['fixval'])
@@ -860,7 +860,8 @@ def execute(desc, ctx):
         for var, val in (('pvec', fmt_vec(op_.get('pvec', [0, 0, 0]))), ('pnum', fmt_vec([op_.get('pnum', 0.0)]))):
             fix.append(FixupValue(var, val, len(fix) + 1))
             table[var] = val
-        if op_.get('reuse_inst') and prev_inst is not None:
+        if op_.get('reuse_inst') and prev_inst is not None and prev_ti == ti:
+            # (an Instance stands for one func_instance of one file: it is only re-used for the file it was made for)
             inst = prev_inst
             inst.name, inst.pos, inst.orient = op_['name'], Vec(*op_['pos']), Matrix.from_angle(Angle(*op_['ang']))
             inst.fixup_type = FixupStyle(op_['style'])
@@ -879,7 +880,7 @@ def execute(desc, ctx):
         else:
             inst = Instance(op_['name'], 'inst.vmf', Vec(*op_['pos']), Matrix.from_angle(Angle(*op_['ang'])),
                             FixupStyle(op_['style']), (), fix)
-        prev_inst, prev_table = inst, table
+        prev_inst, prev_table, prev_ti = inst, table, ti
         R = rm.mat_from_angle(*op_['ang'])
         T = list(op_['pos'])
         if any(a % 90 for a in op_['ang']):
@@ -994,18 +995,26 @@ def execute_all(desc, ctx):
 
     # reference expansion: list of (file, R, T, name-transformer chain, depth)
     limit = desc['limit']
-    pending = [(i, rm.IDENT, [0.0, 0.0, 0.0], []) for i in desc['top']]
+    pending = [(i, rm.IDENT, [0.0, 0.0, 0.0], [], 0.0) for i in desc['top']]
+    radius = max([1.0] + [abs(c) for fd_ in desc['files'] for t_ in fd_['targets'] for c in t_['origin']] +
+                 [abs(c) for fd_ in desc['files'] for i_ in fd_['insts'] for c in i_['pos']])
     expected = []   # (name, pos, depth)
     passes = 0
     total_collapses = 0
     while pending and passes < limit:
         passes += 1
         nxt = []
-        for i, R, T, chain in pending:
+        for i, R, T, chain, slack in pending:
             total_collapses += 1
             # instance placement in world space
             Ri = rm.mat_mul(rm.mat_from_angle(*i['ang']), R)
             Ti = rm.transform(i['pos'], R, T)
+            if chain:
+                # A nested func_instance carries its composed orientation as an "angles" keyvalue between two passes; at the
+                # gimbal pole that conversion may lose up to twice the horizontal length h of the forward axis (C04).
+                h = horiz_len(Ri)
+                if h < 0.001 * (1 + 1e-6):
+                    slack += 2 * h + 1e-6
             ch = chain + [(i['name'], i['style'])]
             fd = desc['files'][i['file']]
             for t in fd['targets']:
@@ -1013,9 +1022,9 @@ def execute_all(desc, ctx):
                 for iname, style in reversed(ch):
                     # the innermost instance renames first; its own name was renamed by the outer ones before
                     pass
-                expected.append((t, ch, rm.transform(t['origin'], Ri, Ti), passes))
+                expected.append((t, ch, rm.transform(t['origin'], Ri, Ti), passes, slack))
             for sub in fd['insts']:
-                nxt.append((sub, Ri, Ti, ch))
+                nxt.append((sub, Ri, Ti, ch, slack))
         pending = nxt
     finishes = not pending   # all collapsed within the limit (the implementation may still raise, see below)
 
@@ -1067,10 +1076,13 @@ def execute_all(desc, ctx):
     ctx.check(len(targets) == len(expected), 'all_collapsed', f'{len(targets)} info_target in the result, expansion has {len(expected)}')
     # positions (multiset match with tolerance growing with depth)
     remaining = [parse_vec(e['origin']) for e in targets]
-    for t, ch, pos, depth in expected:
+    for t, ch, pos, depth, slack in expected:
         tol = 2e-5 * depth
+        if slack:
+            ctx.label('nested_instance_at_gimbal_pole')
+        extra = 3 * slack * radius * depth
         for k, got in enumerate(remaining):
-            if all(abs(g - w) <= tol * max(1.0, abs(w)) for g, w in zip(got, pos)):
+            if all(abs(g - w) <= tol * max(1.0, abs(w)) + extra for g, w in zip(got, pos)):
                 del remaining[k]
                 break
         else:
